@@ -116,6 +116,61 @@ CHECKS += [
     ),
 ]
 
+CHECKS += [
+    dict(
+        id="C08",
+        text="Every column dtype the installed pandas 3 / pyarrow / narwhals stack produces for text (object, str, string[python], "
+             "string[pyarrow], ArrowDtype string, arrow string / large_string), categorical (sorted, unsorted, ordered, with an unused "
+             "category, arrow dictionary), numeric (all int / uint / float widths, nullable and arrow-backed) and boolean data x 5 formulas "
+             "x 3 materializer routes x 3-4 output types x rank flag x every distinct row order of 1-3-level columns (two alphabets) is "
+             "built by the real model_matrix and compared cell by cell with an independent reference dummy coding (sorted levels for text, "
+             "declared order for categorical dtypes, values unchanged for numerics); every cell must be a number.",
+        design_ref="DESIGN.md section 3 C08; notes/c08.md",
+        note="Trusted: models/dummy_ref.py (self-tested against documented outputs). The order of pyarrow dictionary columns and the numpy "
+             "container dtype (object vs float) of results built from masked extension dtypes are classed unspecified and only counted; "
+             "bool columns: only 'every cell numeric' is demanded. polars is not installed.",
+    ),
+    dict(
+        id="C09",
+        text="Operation histories on a recorded spec with the real code: 7 formulas x rank flag x 3 outputs are fitted on every non-empty "
+             "multiset of <= 3 text values over {x,y,z}; the spec is then applied to every follow-up vector of length <= 3 over {x,y,z,w}, to "
+             "numeric vectors where text was trained and to text where numbers were trained (depth 1), and to every ordered pair of "
+             "follow-ups (depth 2).  Each application is compared with a stateless reference evaluated with the training levels: "
+             "FactorEncodingError iff a factor's kind changed, otherwise the spec's column names and order, coding rows of present levels, "
+             "all-zero columns for absent levels, nothing added or renamed for unseen levels plus a DataMismatchWarning; the second "
+             "application must equal what the same frame gives on a freshly fitted spec (no carry-over).",
+        design_ref="DESIGN.md section 3 C09; notes/c09.md",
+        note="Trusted: models/dummy_ref.py. Warnings are recorded locally with simplefilter('always').",
+        bfs=True,
+    ),
+    dict(
+        id="C10",
+        text="Every ordered list of <= 2 distinct terms over a 32-term universe (factor subsets of size <= 3 of {a, b, A(3), B(2), {a+b}}, "
+             "scaled terms, unsorted factor orders such as B:A and b:A:a, multi-column transforms, a one-level categorical giving zero "
+             "columns) and every 3-term list over its core (thorough), with the intercept absent / first / last, built from strings and from "
+             "term lists, x 3 outputs x rank flag x two frames.  For each spec: column_names vs actual labels, term index ranges (contiguous, "
+             "disjoint, ordered, covering, each holding only its own term's columns), every lookup by Term object / printed form / column "
+             "name through term_indices, term_slices, get_slice, get_term_indices, column_indices, variable_indices against a hand-written "
+             "variable table, and regeneration of every non-empty term subset against the parent's columns.",
+        design_ref="DESIGN.md section 3 C10; notes/c10.md",
+        note="Expectations (term order, printed forms, variables per factor) are written by hand in props/c10.py. Lookups by permuted "
+             "forms other than the printed form are counted, not demanded. Not covered: > 3 terms, clustering, structured specs.",
+    ),
+    dict(
+        id="C17",
+        text="For 16 factor kinds (plain, back-quoted, dotted column, call, nested call with context functions, module call, attribute "
+             "access, method call, braces, I(), C(), stateful and multi-column transforms) every single-factor, sum, interaction formula "
+             "with several left-hand-side forms is materialized on the frame restricted to exactly the reported required variables, plus "
+             "an unused column, and minus each reported column - for Formula.required_variables and for the fitted spec.  Name resolution: "
+             "every one of the 2^3 combinations of {data, context, built-in transforms} defining a value name and a callable name through 5 "
+             "entry points; the produced column must come from the winning layer and variables_by_source must say so.  '.': every ordered "
+             "column list of <= 3 (4) names x every LHS subset x 4 LHS forms x 5 entry points.",
+        design_ref="DESIGN.md section 3 C17; notes/c17.md",
+        note="Verdicts are operational (succeeds / raises FactorEvaluationError / equals the winning layer's value). Four known findings "
+             "(K3a-d, one root cause: method-call receivers and attribute access in Python factors) are listed in known_findings.json.",
+    ),
+]
+
 ALL = ["C%02d" % i for i in range(1, 21)]
 _reason = "check not built yet in this revision (work in progress; see DESIGN.md section 3 for the planned bounded-exhaustive check)"
 NOT_APPLICABLE = [dict(property_id=i, reason=_reason) for i in ALL if i not in {c["id"] for c in CHECKS}]
